@@ -24,12 +24,12 @@ import time
 from pathlib import Path
 
 VERIF = Path("/verif")
-REPO = Path("/repo")
+REPO = Path(os.environ.get("VERIF_REPO", "/repo"))
 COQ = VERIF / "coq"
 EVID = VERIF / "evidence"
 REPLAYS = VERIF / "replays"
 SCRATCH_ROOT = VERIF / ".scratch"
-KNOWN = VERIF / "known_findings.json"
+KNOWN = Path(os.environ.get("VERIF_KNOWN", str(VERIF / "known_findings.json")))
 PY = "/venv/bin/python"
 NPROC = os.cpu_count() or 4
 
@@ -192,24 +192,38 @@ class Run:
             self._scratch = None
 
     # -- Coq build and theorem audit --------------------------------------------------------------
-    def coq_build(self, timeout=1500) -> bool:
-        """Full .vo build of the development (incremental; serialised by a lock)."""
+    def coq_build(self, files=None, timeout=2400) -> bool:
+        """Full .vo build of the development (incremental; serialised by a lock).
+
+        coq/_CoqProject is regenerated from the fragments coq/project.d/*.txt (one per property group, files in
+        dependency order).  ``make -k`` keeps going past a broken file so that one group's breakage does not hide
+        another's result; success for this run = every file in ``files`` has an up-to-date .vo."""
         COQ.mkdir(exist_ok=True)
         with open(COQ / ".build.lock", "w") as lk:
             fcntl.flock(lk, fcntl.LOCK_EX)
-            if not (COQ / "Makefile").exists() or (COQ / "Makefile").stat().st_mtime < (COQ / "_CoqProject").stat().st_mtime:
+            seen, lines = set(), ["-R . Spox"]
+            for frag in sorted((COQ / "project.d").glob("*.txt")):
+                for ln in frag.read_text().split():
+                    if ln and ln not in seen and (COQ / ln).exists():
+                        seen.add(ln)
+                        lines.append(ln)
+            new = "\n".join(lines) + "\n"
+            cp = COQ / "_CoqProject"
+            if not cp.exists() or cp.read_text() != new or not (COQ / "Makefile").exists():
+                cp.write_text(new)
                 rc, out = sh("coq_makefile -f _CoqProject -o Makefile", cwd=COQ, timeout=60)
                 if rc != 0:
-                    self.fail("proof", "coq_makefile", "coq_makefile failed", out[-2000:])
+                    self.build_log, self.build_failed_files = out, ["_CoqProject"]
                     return False
-            rc, out = sh(f"timeout {timeout} make -j{NPROC} 2>&1", cwd=COQ, timeout=timeout + 30)
+            rc, out = sh(f"timeout {timeout} make -k -j{NPROC} 2>&1", cwd=COQ, timeout=timeout + 30)
         self.build_log = out
-        if rc != 0:
-            m = re.findall(r'File "\./([^"]+)", line (\d+)', out)
-            self.build_failed_files = sorted({f for f, _ in m})
-            return False
-        self.build_failed_files = []
-        return True
+        stale = []
+        for f in (files if files is not None else list(seen)):
+            v, vo = COQ / f, COQ / (f[:-2] + ".vo")
+            if not v.exists() or not vo.exists() or vo.stat().st_mtime < v.stat().st_mtime:
+                stale.append(f)
+        self.build_failed_files = stale
+        return not stale
 
     def audit_sources(self, files):
         """No Admitted/Axiom/... anywhere in the development files used by this property."""
@@ -245,7 +259,7 @@ class Run:
         if bad:
             ok = False
             self.fail("proof", "forbidden-construct", "forbidden construct in the development", bad[:20])
-        built = self.coq_build()
+        built = self.coq_build(files)
         self.checker_cmd = (
             f"cd /verif/coq && coq_makefile -f _CoqProject -o Makefile && make -j{NPROC} && "
             f"coqc -R . Spox {props_file}  (Print Assumptions under every property theorem)"
